@@ -819,7 +819,7 @@ mutual
             | none => (evalE env e σ2).bind fun vs σ3 => .ok [first vs] σ3
     | .interp segs, σ => (evalSegs env segs [] σ).bind fun s σ' => .ok [.str s] σ'
     | .cast e _, σ => (evalE env e σ).bind fun vs σ' => .ok [first vs] σ'
-    | .inst e _, σ => evalE env e σ
+    | .inst e _, σ => (evalE env e σ).bind fun vs σ' => .ok [first vs] σ'
 
   /-- argument / value lists: all but the last truncated to one value -/
   def evalEs (env : Env N) : List Expr → State N → Res N (List (Val N))
